@@ -27,6 +27,7 @@ AXES = [
     ('vec2d', [False, True]),
     ('unused_top', [False, True]),
     ('whitening', ['mixing', 'absent']),
+    ('channel_map', ['identity', 'perm', 'sub_high']),
     ('label', ['', 'probe00']),
     ('factor', [1, 2.5]),
 ]
@@ -55,6 +56,7 @@ def make_spec(cfg, fill):
             'spike_templates': st, 'spike_clusters': sc, 'raw': cfg['raw'],
             'features': cfg['features'], 'tfeatures': 'absent', 'probes': cfg['probes'],
             'vec2d': cfg['vec2d'], 'whitening': cfg['whitening'], 'fill': fill, 'n_raw': 60,
+            'channel_map': cfg.get('channel_map', 'identity'),
             # 30 / 25000 * 25000 truncates to 29: samples recovered from seconds must be rounded
             'sample_rate': 25000.0,
             'tsv': ({'cluster_KSLabel.tsv': {'field': 'KSLabel', 'values': {0: 'good', 1: 'mua'}}}
